@@ -7,6 +7,7 @@ CONSTANTS
   WithEmpty = FALSE
   Levels = {"cold", "all"}
   MaxStep = 0
+  Plain = TRUE
   OnlyLayouts = FALSE
   FullProduct = FALSE
 INVARIANTS ObjCorrect FormatLossless SideRule LatentUnreachable PrintLayout
